@@ -134,4 +134,12 @@ CHECKS = {
         "level_text": 'Decides record multiplicity, header typestate, name/value pairing and the JSON kind mapping on every path. Number/escape fidelity inside serde_json and Display formats are not decided.',
         "level_note": 'Trusted: serde_json serialisation; MIR of the nightly front end.',
     },
+    "C13": {
+        "modules": ["rules_c13"],
+        "explanation": "Constant and shape extraction from the MIR of the table-driven parser: the (operator, precedence) pairs of BinaryOperators::new (operator aggregate and BinaryOperator::new argument of each insert call) and the constants returned per token variant by Parser::get_token_precedence are checked against the property's ordering chain; the climbing loop's two comparisons are '<' and the right operand is parsed at token_precedence + 1; the constant levels at which parse_unary_operator parses the operands of NOT and unary minus lie in the required intervals of the extracted table; every construction of Operator::Dual in the tokenizer is dominated by a test that constrains the second character; the IN arms have no ExpectedTuple rejection.",
+        "trusted": ["rustc nightly MIR + trait resolution", "dependencies behave as documented"],
+        "technique": 'static constant extraction and guard-dominance rules on MIR of the tokenizer/parser tables',
+        "level_text": 'Decides that the precedence tables, the climbing loop and the prefix levels realise the stated precedence and associativity, and that operator fusion is constrained. That table-driven climbing equals the reference grammar given a correct table is the standard result, not re-proved.',
+        "level_note": 'Trusted: MIR of the nightly front end.',
+    },
 }
